@@ -175,6 +175,18 @@ class Ctx:
         self.obs.append(rec)
         return ok
 
+    def lean(self, label, theorems, note=""):
+        """a spec-level lemma discharged by Lean 4 + Mathlib (lean/Lemmas.lean): proved iff the file
+        compiled without error (stamp of setup.sh, or compiled now; the thorough tier always
+        recompiles), contains no sorry/axiom/admit and states the named theorems"""
+        ok, why = lean_status(theorems, force=(self.tier == "thorough"))
+        rec = {"id": self.oid(label), "kind": "lemma",
+               "verdict": solve.Verdict.PROVED if ok else solve.Verdict.UNKNOWN,
+               "backend": "lean4+mathlib", "seconds": 0.0, "lineno": None,
+               "note": (note + " " + why).strip(), "known": None, "replay": None, "model": None}
+        self.obs.append(rec)
+        return ok
+
     def undecided(self, label, kind, why):
         self.obs.append({"id": self.oid(label), "kind": kind, "verdict": solve.Verdict.UNKNOWN,
                          "backend": "-", "seconds": 0.0, "lineno": None, "note": why, "known": None,
@@ -245,6 +257,47 @@ class Ctx:
                     break
             self.ob("%s/safety-%s@L%s#%d" % (prefix, kind, ln, k), "safety-" + kind,
                     chosen, g, lineno=ln, replay=replay)
+
+
+_LEAN_CACHE = {}
+
+
+def lean_status(theorems, force=False):
+    import hashlib
+    import re
+    path = os.path.join(VERIF, "lean", "Lemmas.lean")
+    if not os.path.exists(path):
+        return False, "lean/Lemmas.lean missing"
+    text = open(path).read()
+    if re.search(r"\b(sorry|admit|axiom|native_decide)\b", re.sub(r"/-.*?-/", "", text, flags=re.S)):
+        return False, "lean/Lemmas.lean contains sorry/admit/axiom"
+    for t in theorems:
+        if not re.search(r"\btheorem\s+%s\b" % re.escape(t), text):
+            return False, "theorem %s not stated in lean/Lemmas.lean" % t
+    h = hashlib.sha256(text.encode()).hexdigest()
+    stamp = os.path.join(VERIF, "out", "lean.stamp")
+    if not force and os.path.exists(stamp) and open(stamp).read().strip() == h:
+        return True, "Lean accepted the file (stamp %s)" % h[:12]
+    if ("compiled", h) in _LEAN_CACHE:
+        return _LEAN_CACHE[("compiled", h)]
+    lock = os.path.join(VERIF, "out", "lean.lock")
+    os.makedirs(os.path.dirname(lock), exist_ok=True)
+    import fcntl
+    with open(lock, "w") as lf:
+        fcntl.flock(lf, fcntl.LOCK_EX)
+        if not force and os.path.exists(stamp) and open(stamp).read().strip() == h:
+            return True, "Lean accepted the file (stamp %s)" % h[:12]
+        p = subprocess.run("cd /opt/veriftools/mathlib4 && lake env lean %s" % path, shell=True,
+                           capture_output=True, text=True, timeout=3000)
+        out = p.stdout + p.stderr
+        ok = p.returncode == 0 and "error" not in out and "sorry" not in out
+        if ok:
+            with open(stamp, "w") as f:
+                f.write(h)
+        res = (ok, "Lean %s the file now (exit %d)%s" % ("accepted" if ok else "REJECTED", p.returncode,
+                                                         "" if ok else ": " + out[-400:]))
+        _LEAN_CACHE[("compiled", h)] = res
+        return res
 
 
 def _model_str(m, limit=60):
